@@ -277,6 +277,9 @@ where
 
         #[allow(unused_mut)]
         let mut self_buffer_u64: u64 = self.buffer.cast();
+        // The copied bits are now the lowest ones: remove them, as the bits
+        // of the buffer outside of the valid ones must be zero
+        self.buffer = (self.buffer >> from_buffer as usize) << from_buffer as usize;
 
         #[cfg(feature = "checks")]
         {
@@ -320,8 +323,10 @@ where
         bit_write
             .write_bits((new_word >> self.bits_in_buffer).upcast(), n as usize)
             .map_err(CopyError::WriteError)?;
-        self.buffer = UpcastableInto::<BB<WR>>::upcast(new_word)
-            .rotate_right(WR::Word::BITS as u32 - n as u32);
+        // Keep just the bits that have not been copied
+        self.buffer = (UpcastableInto::<BB<WR>>::upcast(new_word)
+            << (BB::<WR>::BITS - self.bits_in_buffer - 1))
+            << 1;
 
         Ok(())
     }
